@@ -511,7 +511,7 @@ def model_predictions(ctx, shapes):
         if mode == "full":
             sched = "(repeat (AReq 0) %d ++ [AReload; AReload] ++ repeat (AReq 0) %d)" % (k, n - k)
         else:
-            sched = "([AReload] ++ repeat (AReq 0) %d ++ [AReload])" % n
+            sched = "(repeat AReload %d ++ repeat (AReq 0) %d ++ [AReload; AReload])" % (k + 1, n)
         defs.append("(map (fun o => map snd o) (observations code_shape 1 [%s] %s), P_no_mixture (observations code_shape 1 [%s] %s))"
                     % (req, sched, req, sched))
     body = ["From Coq Require Import List Bool Arith.", "From HK Require Import Model.Reload.", "Import ListNotations.",
@@ -712,6 +712,13 @@ def strace_run(hbin, workdir, tag, inp, extra=()):
 
 # ---------------------------------------------------------------------------
 
+def _report(ctx, key, what, obj):
+    obj = dict(obj)
+    obj.setdefault("how_to_replay", "./check C18 --replay <this file>  (re-runs the whole check with the recorded seed and reports whether key %r still fails); "
+                                    "the case is self-contained: configurations, request, schedule / fault are in `case`" % key)
+    return C.report(ctx, key, what, obj)
+
+
 def main(ctx, replay):
     rng = random.Random(ctx.seed)
     info = C.prologue(ctx, need_go=False)
@@ -744,6 +751,7 @@ def main(ctx, replay):
         raise RuntimeError("reload-failed: " + err[-2000:])
     res_a = json.loads(out)
     kinds = {}
+    sampled_kinds = set()
     for c, r in zip(cases, res_a):
         evaluations += 1
         kinds[c["kind"]] = kinds.get(c["kind"], 0) + 1
@@ -753,9 +761,9 @@ def main(ctx, replay):
         exp = c["expect"]
         if exp == "ok":
             if not r["reload_ok"] or not r["returned_new"]:
-                C.report(ctx, "reload-refused:" + c["name"], "a reloadable change was not applied (control case)", rep)
+                _report(ctx, "reload-refused:" + c["name"], "a reloadable change was not applied (control case)", rep)
             elif not r["fp_equals_fresh_new"]:
-                C.report(ctx, "reload-incomplete:" + c["name"],
+                _report(ctx, "reload-incomplete:" + c["name"],
                          "after a successful reload the state does not decide like a process started on the new file: " + "; ".join(r["fp_fresh_diff"][:4]), rep)
             if c["name"] != "control:noop" and r["fp_same"]:
                 raise RuntimeError("probe set is blind to the delta of " + c["name"])
@@ -778,12 +786,14 @@ def main(ctx, replay):
         if r["tokens_before"] != r["tokens_after"]:
             problems.append("rate-limiter state changed: %s -> %s" % (r["tokens_before"], r["tokens_after"]))
         if problems:
-            C.report(ctx, "failed-reload-changed-state:" + c["kind"], "%s: %s" % (c["name"], "; ".join(problems)), rep)
+            _report(ctx, "failed-reload-changed-state:" + c["kind"], "%s: %s" % (c["name"], "; ".join(problems)), rep)
         elif r["identity_changed"]:
-            C.report(ctx, "failed-reload-wrote-state:" + c["kind"],
+            _report(ctx, "failed-reload-wrote-state:" + c["kind"],
                      "%s: fields %s were reassigned by a failed reload (model: no write before the last failure exit)" % (c["name"], r["identity_changed"]), rep)
-        elif len(samples) < 4:
-            samples.append({"part": "a", "case": c["name"], "reload_ok": r["reload_ok"], "fingerprint_lines": r["fp_lines"], "sample": r["fp_sample"]})
+        elif c["kind"] not in sampled_kinds:
+            sampled_kinds.add(c["kind"])
+            samples.append({"part": "a", "case": c["name"], "reload_ok": r["reload_ok"], "returned_running": r["returned_running"],
+                            "fingerprint_lines": r["fp_lines"], "fingerprint_unchanged": r["fp_same"], "limiter_tokens": [r["tokens_before"], r["tokens_after"]]})
     dist["failed_reload_cases_by_kind"] = kinds
 
     # ------------------------------------------------------------------ (b)
@@ -791,7 +801,7 @@ def main(ctx, replay):
     shards = [scs[i::8] for i in range(8)]
 
     def run_shard(i):
-        rc, out, err = C.harness_run(hbin, ["reload-visibility"], {"dir": os.path.join(ctx.scratch, "v%d" % i), "scenarios": shards[i]})
+        rc, out, err = C.harness_run(hbin, ["reload-visibility"], {"dir": os.path.join(ctx.scratch, "v%d" % i), "scenarios": shards[i], "sync_points": len(points)})
         if rc != 0:
             raise RuntimeError("reload-visibility: " + err[-2000:])
         return json.loads(out)
@@ -822,7 +832,7 @@ def main(ctx, replay):
                 vers = classify(rr["old"], rr["new"], m)
                 cbs = tuple(c["cb"] for c in m["calls"])
                 mode = "full" if m["mode"].startswith("full") else "window"
-                k = m["position"] if mode == "full" else 0
+                k = m["position"] if mode == "full" else max(m["position"], 0)
                 shapes.add((cbs, mode, k))
                 runs.append((sc, rq, rr, m, vers, cbs, mode, k))
     pred, plog = model_predictions(ctx, shapes)
@@ -852,7 +862,7 @@ def main(ctx, replay):
             # an outcome that is neither old nor new although every identifiable read agrees: not explained by the model
             key = "reload-unexplained-outcome"
         elif mode == "window":
-            key = "reload-two-lock-window"
+            key = "reload-two-lock-window" if (k == 0 and len(points) in (0, 2)) else "reload-lock-window:" + points[k]
         else:
             xs = [cb for cb, v in list(zip(cbs, vers))[:k] if v == "0"]
             ys = [cb for cb, v in list(zip(cbs, vers))[k:] if v == "1"]
@@ -865,7 +875,7 @@ def main(ctx, replay):
         findings.setdefault(key, []).append(wit)
         nontrivial.add((key, sc["id"]))
     for cm in corr_mism[:5]:
-        C.report(ctx, "reload-model-mismatch:" + cm["callback"], "accessor saw version %s, Model/Reload.v predicts %s" % (cm["observed"], cm["model"]),
+        _report(ctx, "reload-model-mismatch:" + cm["callback"], "accessor saw version %s, Model/Reload.v predicts %s" % (cm["observed"], cm["model"]),
                  {"kind": "schedule", "case": cm})
     WHAT = {
         "reload-two-lock-window": "a request served while reloadConfig is between its two critical sections (loadAuth has published the new authenticator/allowlist tables, updateAll has not yet published the new route table, pull mapping and limiters) is decided under a mixture of the old and the new configuration",
@@ -878,7 +888,7 @@ def main(ctx, replay):
                     "its outcome is neither the all-old nor the all-new outcome" % (a, b, a, b))
         else:
             what = WHAT.get(key, key)
-        C.report(ctx, key, what, {"kind": "schedule", "case": ws[0], "witnesses": len(ws), "other_scenarios": sorted({w["scenario"] for w in ws})[:12]})
+        _report(ctx, key, what, {"kind": "schedule", "case": ws[0], "witnesses": len(ws), "other_scenarios": sorted({w["scenario"] for w in ws})[:12]})
     dist.update({"visibility_scenarios": len(scs), "visibility_restart_skipped": n_restart, "mixed_runs": n_mixed,
                  "runs_with_version_mixture": n_version_mix, "runs_with_observable_mixture": n_outcome_mix,
                  "distinct_request_shapes_checked_against_model": len(shapes), "sync_points": points, "sync_point_used": sync_avail,
@@ -886,6 +896,15 @@ def main(ctx, replay):
     if findings:
         k0 = sorted(findings)[0]
         samples.append({"part": "b", "key": k0, "witness": {k: v for k, v in findings[k0][0].items() if k not in ("old_config", "new_config")}})
+
+    # real goroutine scheduling (evidence only: the mixtures are the known D5 windows, reached without any hook)
+    if ctx.tier != "quick":
+        rc, out, err = C.harness_run(hbin, ["reload-stress"], {
+            "dir": os.path.join(ctx.scratch, "stress"), "old": vis_config(("hmac", None, None)), "new": vis_config(("basic", None, None)),
+            "probe": {"method": "POST", "path": "/a", "body_len": 8}, "workers": 12, "millis": 20000, "old_codes": [401], "new_codes": [401]})
+        if rc != 0:
+            raise RuntimeError("reload-stress: " + err[-2000:])
+        dist["concurrent_stress_hmac_to_basic_unauthenticated_request"] = json.loads(out)
 
     # ------------------------------------------------------------------ (c)
     fsdir = os.path.join(ctx.scratch, "fs")
@@ -895,7 +914,7 @@ def main(ctx, replay):
     contents = [("cfg", OLD, NEW), ("short", b"old\n", b"n"), ("empty-new", OLD, b""), ("binary", bytes(range(256)), bytes(reversed(range(256))) * 3)]
     if ctx.tier != "quick":
         for i in range(6):
-            contents.append(("rand%d" % i, bytes(rng.randrange(256) for _ in range(rng.randrange(1, 3000))), bytes(rng.randrange(256) for _ in range(rng.randrange(0, 70000)))))
+            contents.append(("rand%d" % i, bytes(rng.randrange(256) for _ in range(rng.randrange(1, 3000))), bytes(rng.randrange(256) for _ in range(rng.randrange(0, 6000)))))
     flavours = ["app", "mcp", "mcp-rollback"]
     jobs = []
     for fl in flavours:
@@ -929,11 +948,11 @@ def main(ctx, replay):
         ops = to_fsops(calls[win[0] + 1:win[1]], p)
         rep["trace"] = [list(o[:2]) + ([len(o[2])] if o[0] == "Write" else list(o[2:])) for o in ops]
         if childerr or after != new:
-            C.report(ctx, "fs-replace-failed:" + fl, "writeFileAtomic returned %r / file does not hold the new content afterwards" % childerr, rep)
+            _report(ctx, "fs-replace-failed:" + fl, "writeFileAtomic returned %r / file does not hold the new content afterwards" % childerr, rep)
         if mode_after != 0o640:
-            C.report(ctx, "fs-replace-mode:" + fl, "file mode %o after the replacement (was 640)" % mode_after, rep)
+            _report(ctx, "fs-replace-mode:" + fl, "file mode %o after the replacement (was 640)" % mode_after, rep)
         if stray:
-            C.report(ctx, "fs-stray-temp:" + fl, "files left behind by a successful replacement: %s" % stray, rep)
+            _report(ctx, "fs-stray-temp:" + fl, "files left behind by a successful replacement: %s" % stray, rep)
         P, tr_coq = coq_fsops(ops, p)
         coq_terms.append("replace_ok %s %s %s" % (P, C.coq_bytes(new), tr_coq))
         trace_info.append((job, rep, ops))
@@ -951,14 +970,17 @@ def main(ctx, replay):
         if cn in ("cfg", "short") or ctx.tier != "quick":
             for (name, nth, pos) in pts:
                 kill_jobs.append((job, name, nth, pos, len(pts)))
-    body = ["From Coq Require Import List NArith.", "From HK Require Import Model.FsAtomic.", "Import ListNotations.",
-            "Definition R := Eval vm_compute in [%s]." % ";\n ".join(coq_terms), "Print R."]
-    rc, out = C.coq_eval_cases(ctx, "c18fs", "\n".join(body) + "\n")
-    flat = " ".join(out.split())
-    m = re.search(r"R\s*=\s*\[(.*?)\]\s*:\s*list", flat)
-    if rc != 0 or not m:
-        raise RuntimeError("replace_ok could not be evaluated:\n" + out[-2000:])
-    verdicts = re.findall(r"true|false", m.group(1))
+    bodies = []
+    for i in range(0, len(coq_terms), 4):
+        bodies.append("\n".join(["From Coq Require Import List NArith.", "From HK Require Import Model.FsAtomic.", "Import ListNotations.",
+                                 "Definition R := Eval vm_compute in [%s]." % ";\n ".join(coq_terms[i:i + 4]), "Print R."]) + "\n")
+    verdicts = []
+    for rc, out in C.coq_eval_shards(ctx, "c18fs", bodies):
+        flat = " ".join(out.split())
+        m = re.search(r"R\s*=\s*\[(.*?)\]\s*:\s*list", flat)
+        if rc != 0 or not m:
+            raise RuntimeError("replace_ok could not be evaluated:\n" + out[-2000:])
+        verdicts += re.findall(r"true|false", m.group(1))
     if len(verdicts) != len(trace_info):
         raise RuntimeError("replace_ok verdict count mismatch")
     n_accept = 0
@@ -967,7 +989,7 @@ def main(ctx, replay):
             n_accept += 1
             nontrivial.add(("trace", job[0], job[1]))
         else:
-            C.report(ctx, "fs-replace-not-atomic:" + job[0],
+            _report(ctx, "fs-replace-not-atomic:" + job[0],
                      "the syscall trace of the real %s is not accepted by replace_ok (temp file in the same directory, full content written and fsynced before the rename onto the target, directory fsync after)" % job[0], rep)
     if trace_info and len(samples) < 8:
         samples.append({"part": "c", "flavour": trace_info[0][0][0], "fsops": trace_info[0][1]["trace"]})
@@ -1010,12 +1032,12 @@ def main(ctx, replay):
         elif content == new:
             sides["new"] += 1
         else:
-            C.report(ctx, "fs-kill-torn:" + fl, "after SIGKILL at %s #%d the file holds neither the complete old nor the complete new content" % (name, nth), rep)
+            _report(ctx, "fs-kill-torn:" + fl, "after SIGKILL at %s #%d the file holds neither the complete old nor the complete new content" % (name, nth), rep)
         bad = [n for n in names if n != "Hookaidofile" and not re.match(r"^\.Hookaidofile\.tmp-\d+$", n)]
         if bad or len(names) > 2:
-            C.report(ctx, "fs-stray-temp:" + fl, "after SIGKILL the directory holds %s (a leftover must be one hidden .<name>.tmp-* file)" % names, rep)
+            _report(ctx, "fs-stray-temp:" + fl, "after SIGKILL the directory holds %s (a leftover must be one hidden .<name>.tmp-* file)" % names, rep)
         if not again_ok:
-            C.report(ctx, "fs-kill-blocks-next:" + fl, "after SIGKILL at %s #%d the next replacement of the file fails" % (name, nth), rep)
+            _report(ctx, "fs-kill-blocks-next:" + fl, "after SIGKILL at %s #%d the next replacement of the file fails" % (name, nth), rep)
     if kill_jobs and n_killed < 0.8 * len(kill_jobs):
         raise RuntimeError("kill injection hit only %d of %d points" % (n_killed, len(kill_jobs)))
     if not (sides["old"] and sides["new"]):
@@ -1039,7 +1061,7 @@ def main(ctx, replay):
         if ctx.violations:
             ctx.notes.append("source no longer matches what Model/Reload.v says: %s" % lint)
         else:
-            C.report(ctx, "model-stale", "run.go/http.go no longer match what Model/Reload.v encodes: " + "; ".join(lint),
+            _report(ctx, "model-stale", "run.go/http.go no longer match what Model/Reload.v encodes: " + "; ".join(lint),
                      {"kind": "obligation", "no_failing_input_found": True, "discrepancies": lint,
                       "note": "failed-reload cases, visibility scenarios, file traces and mutations were run on the implementation and showed no unlisted property failure"})
     cov.update({
@@ -1220,7 +1242,7 @@ def judge_app_mutation(ctx, c, r, nontrivial):
         problems.append("stray files %s" % r["stray_files"])
         key = key or "fs-stray-temp:app"
     if problems:
-        C.report(ctx, "%s:%s" % (key or "mutation:app", c["name"]), "; ".join(problems), rep)
+        _report(ctx, "%s:%s" % (key or "mutation:app", c["name"]), "; ".join(problems), rep)
 
 
 def judge_mcp_mutation(ctx, c, r, nontrivial):
@@ -1256,4 +1278,4 @@ def judge_mcp_mutation(ctx, c, r, nontrivial):
         problems.append("stray files %s" % r["stray_files"])
         key = key or "fs-stray-temp:mcp"
     if problems:
-        C.report(ctx, "%s:%s" % (key or "mutation:mcp", c["name"]), "; ".join(problems), rep)
+        _report(ctx, "%s:%s" % (key or "mutation:mcp", c["name"]), "; ".join(problems), rep)
